@@ -13,7 +13,7 @@ import os
 import vlib
 from vlib import log
 
-NAMES = [("Foo", "foo"), ("FooBar", "foo_bar"), ("Ab", "ab")]
+NAMES = [("Foo", "foo"), ("FooBar", "foo_bar"), ("Ab", "ab"), ("Quux", "quux")]
 PRELUDE = r'''
 #[derive(Clone, Debug, PartialEq)] pub struct A(pub u8);
 #[derive(Clone, Debug, PartialEq)] pub struct B(pub u8);
@@ -38,15 +38,15 @@ def tyname(t, c, i, j):
 def build(c, key):
     global NAMES
     # a third of the enums name their last variant with a raw identifier (accessors: is_fn, unwrap_fn, ...)
-    NAMES = [("Foo", "foo"), ("FooBar", "foo_bar"), ("Ab", "ab")]
+    NAMES = [("Foo", "foo"), ("FooBar", "foo_bar"), ("Ab", "ab"), ("Quux", "quux")]
     pick = vlib.seeded_pick(key, 11, 6)
     if pick == 0:
         NAMES[len(c["vs"]) - 1] = ("r#fn", "fn")
     elif pick == 1:
         # underscores are word boundaries, never part of a word: leading, doubled and trailing ones vanish
-        NAMES = [("_Phantom", "phantom"), ("Left__Right", "left_right"), ("Trailing_", "trailing")]
+        NAMES = [("_Phantom", "phantom"), ("Left__Right", "left_right"), ("Trailing_", "trailing"), ("Q_", "q")]
     elif pick == 2:
-        NAMES = [("Plain_Name", "plain_name"), ("lower", "lower"), ("X", "x")]
+        NAMES = [("Plain_Name", "plain_name"), ("lower", "lower"), ("X", "x"), ("Y2", "y2")]
     vs = c["vs"]
     has_named = any(v["k"] == "named" for v in vs)
     derives = ["IsVariant", "TryInto"] if has_named else ["IsVariant", "Unwrap", "TryUnwrap", "TryInto"]
